@@ -38,7 +38,10 @@ structure Route where
   segs : List Segment
   deriving DecidableEq, Repr, Inhabited
 
-def B (s : String) : Bytes := Bytes.ofString s
+/-- the bytes of an ASCII literal of the model (`"/"`, `": "`, `"route"` …). Defined through the
+    characters so that the kernel evaluates it (`decide`, `rfl`); all literals in the model are ASCII,
+    for which this is the UTF-8 encoding. -/
+def B (s : String) : Bytes := s.toList.map fun c => c.toNat.toUInt8
 
 def BindVal.render : BindVal → Bytes
   | .lit s => s
